@@ -255,6 +255,27 @@ def _sld(ctx):
                   f"irho is computed from {sorted(names_in(ret[1]) & t1)}, which depend on f1: NaN in f1 makes irho NaN", fsite(ctx, qual))
         ctx.check(not (names_in(ret[0]) & t2), "R3", f"{qual.split('.', 1)[1]}: rho does not depend on f2",
                   f"rho is computed from {sorted(names_in(ret[0]) & t2)}, which depend on f2", fsite(ctx, qual))
+    # two charge states of one element in one compound: counts of both enter the sums
+    q3 = sp.Symbol("q3", positive=True)
+    mv = {A["ion_element"]: q[0], A["anion"]: q[1], O: q3}
+    me_ = sp.Symbol("m_e", positive=True)
+    Mmv = q[0] * (mass_sym("Fe") - 2 * me_) + q[1] * (mass_sym("Fe") + 2 * me_) + q3 * mass_sym("O")
+    gmv = I.call(xs, [dict(mv)], {"density": rho, "energy": E})
+    for i, col in enumerate(("F1", "F2")):
+        want = re_ * NA * rho / Mmv * sp.Rational(1, 10 ** 8) * ((q[0] + q[1]) * f("Fe", col, E) + q3 * f("O", col, E))
+        eq(ctx, "R3", f"{'rho' if i == 0 else 'irho'} of a mixed-valence compound (Fe2+, Fe2-, O): every charge state is counted",
+           realise(gmv[i]), realise(want), site, nonzero=[Mmv])
+    # caller-owned arrays (Q, energy, wavelength ...) are neither updated in place nor retained by reference
+    from ptstat.taint import caller_array_hazards
+    nfun = 0
+    for qual, fn in ctx.src.funcs.items():
+        if fn.module in ("xsf", "cromermann", "magnetic_ff") and isinstance(fn.node, ast.FunctionDef):
+            nfun += 1
+            for why, node in caller_array_hazards(fn.node):
+                ctx.fail("R3", f"{qual}: {why}", f"{ast.unparse(node)[:80]}: a second call with the same array, or the caller's own later use of it, "
+                         "sees changed values (vector and scalar calls no longer agree)", f"{ctx.src.where(fn.module, node)} {qual}")
+    ctx.ok("R3", "no x-ray calculator updates a caller-supplied array in place or keeps a reference to it", site="periodictable/xsf.py, cromermann.py, magnetic_ff.py",
+           sample={"functions": nfun})
     e0 = I.call(xs, [I.call(I.global_name("formulas", "formula"), [], {})], {"density": rho, "energy": E})
     ctx.check(tuple(e0) == (0, 0), "R3", "the empty formula has zero SLD", f"{_s(e0)}", site)
     # Xray.sld for a bare element / isotope = one-atom compound at that atom's density
